@@ -148,6 +148,13 @@ func c01RunOne(w *mon.W, p *gen.Prog, idx int, label string) {
 		w.Mark("constructs", k)
 	}
 	w.Count("expected_"+want.Kind, 1)
+	if want.Kind == "value" {
+		for name := range p.Calls() {
+			if !(strings.HasPrefix(name, "fn") && len(name) > 2 && name[2] >= '0' && name[2] <= '9') {
+				w.Mark("builtins_in_programs_with_a_value_expectation", name)
+			}
+		}
+	}
 	wit := func(got interface{}) map[string]interface{} {
 		return map[string]interface{}{"family": label, "index": idx, "source": src, "request_path": reqPath, "reference": want, "observed": got}
 	}
